@@ -42,6 +42,21 @@ class EngineException(Exception):
         super().__init__("%s in %s: %s: %s" % (self.etype, call, self.site, self.msg))
 
 
+class KnownTrigger(Exception):
+    """The run reached the trigger of a recorded known finding; it is abandoned here (counted)."""
+
+    def __init__(self, fid):
+        self.fid = fid
+        super().__init__(fid)
+
+
+class Anomaly(Exception):
+    """The engine did something no provider can act on (e.g. offered an engine command as a task)."""
+
+
+ENGINE_COMMANDS = ("continue", "noop", "fail", "retry")
+
+
 def jdump(x):
     return json.dumps(x, sort_keys=True, default=str)
 
@@ -63,6 +78,7 @@ class Driver(object):
         self.steps = []  # one record per applied op
         self.observers = []
         self.restores = 0
+        self.reruns = 0
         self.started = False
 
     # ------------------------------------------------------------------ helpers
@@ -78,7 +94,10 @@ class Driver(object):
         except (exc.InvalidWorkflowStatusTransition,) as e:
             raise
         except Exception as e:  # noqa
-            raise EngineException(name, e)
+            x = EngineException(name, e)
+            x.driver = self
+            x.args_repr = repr(a)[:200]
+            raise x
 
     def start(self):
         """What st2 does: render inputs/vars lazily (serialize), then request running."""
@@ -127,6 +146,12 @@ class Driver(object):
                 }
                 rec["offers"].append(o)
                 self.offers.append(o)
+            for t in tasks:
+                if t["id"] in ENGINE_COMMANDS:
+                    rec["after"] = self.status()
+                    if self.reruns:
+                        raise KnownTrigger("R11")
+                    raise Anomaly("engine command %r offered to the provider as a task" % t["id"])
             # dispatch is atomic with the poll (st2 does both under the execution lock)
             for t in tasks:
                 self._dispatch(t)
@@ -164,6 +189,7 @@ class Driver(object):
             reqs = None
             if op.get("tasks") is not None:
                 reqs = [orq_requests.TaskRerunRequest.new(t, r, reset_items=ri) for t, r, ri in op["tasks"]]
+            self.reruns += 1
             try:
                 self.c.request_workflow_rerun(task_requests=reqs)
             except (exc.WorkflowIsActiveAndNotRerunableError, exc.InvalidTaskRerunRequest) as e:
